@@ -241,7 +241,8 @@ func classOf(name string) string {
 
 func fnOf(input []byte) string { return strings.SplitN(string(input), "@", 2)[0] }
 
-func (r *recEEI) finishCall(p *pendingCall, ok bool, msg string) {
+func (r *recEEI) finishCall(p *pendingCall, code vmcommon.ReturnCode, msg string) {
+	ok := code == vmcommon.Ok
 	if !p.entered {
 		// the callee never ran (no contract at the address, or the init function was called): the real
 		// ExecuteOnDestContext has transferred the value, copied and restored the context
@@ -264,7 +265,7 @@ func (r *recEEI) finishCall(p *pendingCall, ok bool, msg string) {
 	if !ok {
 		r.msgs[p.full+": "+msg]++
 	}
-	r.emit("Return", M{"ok": ok, "via": via, "depth": depth, "api": p.api, "site": p.site, "from": p.full, "msg": msg})
+	r.emit("Return", M{"code": int(code), "ok": ok, "via": via, "depth": depth, "api": p.api, "site": p.site, "from": p.full, "msg": msg})
 }
 
 func (r *recEEI) ExecuteOnDestContext(destination []byte, sender []byte, value *big.Int, input []byte) (*vmcommon.VMOutput, error) {
@@ -277,10 +278,11 @@ func (r *recEEI) ExecuteOnDestContext(destination []byte, sender []byte, value *
 	r.pending = p
 	out, err := r.ContextHandler.ExecuteOnDestContext(destination, sender, value, input)
 	msg := ""
-	if out != nil {
-		msg = out.ReturnMessage
+	code := vmcommon.ExecutionFailed
+	if err == nil && out != nil {
+		msg, code = out.ReturnMessage, out.ReturnCode
 	}
-	r.finishCall(p, err == nil && out != nil && out.ReturnCode == vmcommon.Ok, msg)
+	r.finishCall(p, code, msg)
 	return out, err
 }
 
@@ -299,7 +301,10 @@ func (r *recEEI) DeploySystemSC(baseContract []byte, newAddress []byte, ownerAdd
 		r.broken = "DeploySystemSC did not reach the contract: not modelled"
 		return code, err
 	}
-	r.finishCall(p, err == nil && code == vmcommon.Ok, "")
+	if err != nil {
+		code = vmcommon.ExecutionFailed
+	}
+	r.finishCall(p, code, "")
 	return code, err
 }
 
@@ -412,7 +417,8 @@ func recordStub(seed int64, traces, n int, out string) {
 			default:
 				if depth > 0 {
 					if rng.Intn(2) == 0 {
-						return vmcommon.UserError
+						// any failure code a contract can return (vmcommon.ReturnCode 1..12)
+						return vmcommon.ReturnCode(1 + rng.Intn(12))
 					}
 					return vmcommon.Ok
 				}
